@@ -76,6 +76,7 @@ package decorator
 //@   bind call decoratorController.getChildren: observed, gcErr
 //@   bind call decoratorController.callHook: syncResult, chErr
 //@   bind call DeepCopy: copy
+//@   snap call decoratorController.callHook: hookStatus = syncResult.Status
 //@   bind call Clientset.Kind: parentClient, kindErr
 //@   bind loop 1: gk, group
 //@   bind loop 2: ck, child
@@ -88,6 +89,9 @@ package decorator
 //@   at Update(ri, ctx, body, opts) [C16]: body.GetKind() == up.GetKind() && body.GetAPIVersion() == up.GetAPIVersion() && body.GetGeneration() == up.GetGeneration() && body.GetDeletionTimestamp() == up.GetDeletionTimestamp()
 //@   at Update(ri, ctx, body, opts) [C16]: ownerLen(body) == ownerLen(up) && (forall j int :: 0 <= j && j < ownerLen(up) ==> ownerAt(body, j) == ownerAt(up, j))
 //@   at Update(ri, ctx, body, opts) [C16]: forall k string :: k != "status" ==> has(body.Object, k) == has(up.Object, k) && body.Object[k] == dcval(up.Object[k])
+//@   // status: a null status in the hook response leaves the target's status alone; otherwise it becomes the hook's status
+//@   at Update(ri, ctx, body, opts) [C16]: hookStatus == nil && has(up.Object, "status") ==> has(body.Object, "status") && body.Object["status"] == dcval(dcval(dcval(up.Object["status"])))
+//@   at Update(ri, ctx, body, opts) [C16]: hookStatus != nil ==> has(body.Object, "status") && body.Object["status"] == dcval(hookStatus)
 //@   at Update(ri, ctx, body, opts) [C16]: forall k string :: hasLabel(body, k) == ite(has(syncResult.Labels, k), syncResult.Labels[k] != nil, hasLabel(up, k))
 //@   at Update(ri, ctx, body, opts) [C16]: forall k string :: hasLabel(body, k) ==> label(body, k) == ite(has(syncResult.Labels, k), *syncResult.Labels[k], label(up, k))
 //@   at Update(ri, ctx, body, opts) [C16]: forall k string :: hasAnnotation(body, k) == ite(has(syncResult.Annotations, k), syncResult.Annotations[k] != nil, hasAnnotation(up, k))
